@@ -9,4 +9,5 @@ CONSTANTS
   UnsatGe = TRUE
   ImsLe = TRUE
   ImsLocalTime = FALSE
+  ImsNotAfterNow = FALSE
 INVARIANT Sound
